@@ -214,7 +214,7 @@ def run(ctx):
                  "outcome_lastrow-payload_A", "outcome_highcol_A"] if quick else
                 ["outcome_all-payload_A", "outcome_all-payload_ok", "outcome_all-check_A", "outcome_all-check_ok"])
         need += ["hist_buf_" + k for k in ("fresh", "kept", "kept_subslice", "ones", "bytefill", "random")] + \
-                ["hist_buf_nonzero_before_call", "hist_n_multi_chunk", "hist_n_gt_1024", "hist_n_single_chunk"]
+                ["hist_buf_nonzero_before_call", "hist_same_slice_as_previous_call", "hist_n_multi_chunk", "hist_n_gt_1024", "hist_n_single_chunk"]
         missing = [k for k in need if not c.get(k)]
         ctx.oblige("every honest history of malicious-mode calls on one pair completed, whatever the result slices held "
                    "(no abort in any call)", c.get("hist_cases", 0) > 0 and c.get("hist_cases_ok", 0) == c.get("hist_cases", -1),
